@@ -184,6 +184,22 @@ func init() {
 				}
 			}
 		}
+		// asymmetric family with retractions: nested joins feed a join a changelog (insert, retraction, re-insert of the
+		// same key), so each node must also be right when one input is such a changelog and the other sends one row
+		{
+			long := stream.GenScripts(stream.ScriptOpts{Keys: []int{-1, 1}, Payloads: []int{1}, Times: []int{0}, MaxLen: r.Pick(3, 4), Retractions: true})
+			short := stream.GenScripts(stream.ScriptOpts{Keys: []int{-1, 1}, Payloads: []int{1}, Times: []int{0}, MaxLen: 1})
+			for _, k := range joinKinds {
+				for _, l := range long {
+					if len(l) < 3 {
+						continue
+					}
+					for _, s := range short {
+						jjobs = append(jjobs, jjob{k, l, s}, jjob{k, s, l})
+					}
+				}
+			}
+		}
 		r.Extra["schedule_script_pairs"] = len(jjobs)
 		r.Sharded(16, 1, func(shard, n int) {
 			for i, j := range jjobs {
